@@ -10,6 +10,7 @@ import (
 
 	"verif/sim/checks"
 	"verif/sim/core"
+	_ "verif/sim/cachesim"
 	_ "verif/sim/fcsim"
 )
 
